@@ -23,6 +23,7 @@ Oracle (written here, from the property text only):
 """
 from __future__ import print_function
 import contextlib
+import hashlib
 import itertools
 import json
 import re
@@ -132,7 +133,7 @@ def _rich_trees():
     ex = [{"name": "E1", "tags": ["a"], "headings": ["n", "o"], "rows": [["1", "pass"], ["2", "fail"]]},
           {"name": "E2", "tags": [], "headings": ["n", "o"], "rows": [["3", "pass"]]}]
     return [
-        [R.feature("F1", [R.scenario("S1", [s("1"), s("2")])], filename="features/f1.feature")],
+        [R.feature("F1", [R.scenario("S1", [s("1")])], filename="features/f1.feature")],
         [R.feature("F1", [R.scenario("S1", [s("1"), s("2", "fail")], tags=["a"]), R.scenario("S2", [s("3")])],
                    tags=["b"], background=[s("bg")], filename="features/f1.feature")],
         [R.feature("F1", [R.scenario("S0", [s("0")]),
@@ -174,14 +175,14 @@ def _step_ids(trees):
     return ids
 
 
-def _hook_calls(case):
+def _hook_calls(case, cache):
     """Number of hook invocations of the case's run without raising hooks."""
     base = dict(case)
     base["raise_at"] = []
-    return facts_of(base)["hook_calls"]
+    return facts_of(base, cache)["hook_calls"]
 
 
-def gen_cases(tier, rng, fmt=None, scale=1.0):
+def gen_cases(tier, rng, fmt=None, scale=1.0, cache=None):
     """The run family shared by the reporter/collector checks (default format when fmt is None)."""
     thorough = (tier != "quick")
     # -- A: exhaustive small trees x {plain, --stop, --dry-run}
@@ -199,13 +200,13 @@ def gen_cases(tier, rng, fmt=None, scale=1.0):
         for args in ([], ["--stop"]) if (thorough and scale >= 1.0) else ([],):
             base = _mk_case(trees, args, fmt=fmt)
             yield base
-            n = _hook_calls(base)
+            n = _hook_calls(base, cache)
             for k in range(n):
                 if scale < 1.0 and (k + ti) % stride:
                     continue
                 yield _mk_case(trees, args, [k], "AssertionError" if (k + ti) % 3 == 0 else "RuntimeError", fmt=fmt)
     # -- C: seeded random trees / arguments / hook failures
-    n_random = int((12000 if thorough else 1500) * scale)
+    n_random = int((12000 if thorough else 1000) * scale)
     for _ in range(n_random):
         trees = gen_trees(rng)
         args = list(rng.choice(ARG_VARIANTS))
@@ -216,7 +217,7 @@ def gen_cases(tier, rng, fmt=None, scale=1.0):
         case = _mk_case(trees, args, fmt=fmt, cleanup_ids=cleanup_ids)
         x = rng.random()
         if x < 0.5 and "--dry-run" not in args:
-            n = _hook_calls(case)
+            n = _hook_calls(case, cache)
             if n:
                 ks = {rng.randrange(n)}
                 if x < 0.15:
@@ -428,13 +429,14 @@ def compute_facts(case):
     return facts
 
 
-def facts_of(case):
-    key = json.dumps(case, sort_keys=True)
-    if key not in _FACTS:
-        if len(_FACTS) > 40000:
-            _FACTS.clear()
-        _FACTS[key] = compute_facts(case)
-    return _FACTS[key]
+def facts_of(case, cache=None):
+    cache = _FACTS if cache is None else cache
+    key = hashlib.sha1(json.dumps(case, sort_keys=True).encode("utf-8")).hexdigest()
+    if key not in cache:
+        if len(cache) > 60000:
+            cache.clear()
+        cache[key] = compute_facts(case)
+    return cache[key]
 
 
 # =============================================================================
@@ -523,8 +525,10 @@ def verdict_collector_lists(facts):
 
 def _runner(verdict, fmt=None, scale=1.0):
     def run(tier, rng):
-        for case in gen_cases(tier, rng, fmt=fmt, scale=scale):
-            ok, detail = verdict(facts_of(case))
+        # -- the default-format family is shared by three checks (one real run per case, memoised)
+        cache = _FACTS if fmt is None else {}
+        for case in gen_cases(tier, rng, fmt=fmt, scale=scale, cache=cache):
+            ok, detail = verdict(facts_of(case, cache))
             yield case, ok, detail
 
     def replay(case):
@@ -623,19 +627,21 @@ def _format_runner(fmts, shape):
 # =============================================================================
 # CHECKS
 # =============================================================================
-_FAMILY_Q = ("family A: all 2+... small trees of runlib.small_trees(<=2 scenarios, <=1 step, outcomes pass/fail/"
-             "undefined; plain, with feature background, inside a rule with background, 2-row outlines) plus "
-             "small_trees(1 scenario, <=2 steps, pass/fail), each x {no option, --stop, --dry-run}; family B: 6 "
-             "fixed rich trees (tags, backgrounds, rule, outline with 2 example tables, 2 features, skip/pending/"
-             "@wip, empty scenario) x every single hook invocation of the run raising (RuntimeError, every third "
-             "AssertionError); family C: 500 seeded random runs: 1-3 features, <=3 items each among scenario "
-             "(0-3 steps over pass/fail/error/pending/undefined/skip, 15% of the runs also kbi) / outline (1-2 "
-             "example tables, 0-3 rows) / rule (<=2 items, optional background), optional feature background, "
-             "tags from {a,b,wip}; 13 option sets over --stop, --dry-run, --no-skipped, --tags {a, not a, a or "
-             "b, not a and not b, not b}; in half of the non-dry runs 1 (sometimes 2) hook invocations raise")
-_FAMILY_T = ("family A: runlib.small_trees(<=2 scenarios, <=2 steps, outcomes pass/fail/undefined/skip; variants as "
-             "in quick) x {no option, --stop, --dry-run}; family B: the 6 fixed rich trees x {no option, --stop} x "
-             "every single hook invocation raising; family C: 6000 seeded random runs drawn as in quick")
+_FAMILY_Q = ("family A (exhaustive): the 45 trees of runlib.small_trees(<=2 scenarios, 1 step, outcomes pass/fail/"
+             "undefined; plain, with feature background, inside a rule with background, 2-row outlines) and the 22 "
+             "of small_trees(1 scenario, <=2 steps, pass/fail), each x {no option, --stop, --dry-run}; family B "
+             "(exhaustive): 6 fixed rich trees (tags, backgrounds, rule, outline with 2 example tables, 2 features, "
+             "skip/pending/@wip, empty scenario) x every single hook invocation of the run raising (RuntimeError, "
+             "every third AssertionError); family C (sampled): 1000 seeded random runs: 1-3 features, <=3 items "
+             "each among scenario (0-3 steps over pass/fail/error/pending/undefined/skip, in 15% of the runs also "
+             "kbi) / outline (1-2 example tables, 0-3 rows) / rule (<=2 items, optional background; rules last), "
+             "optional feature background, tags from {a,b,wip}; 13 option sets over --stop, --dry-run, "
+             "--no-skipped, --tags {a, not a, a or b, not a and not b, not b}; in half of the non-dry runs 1 "
+             "(sometimes 2) hook invocations raise; in 12% one executed step registers a raising cleanup")
+_FAMILY_T = ("family A (exhaustive): the 1276 trees of runlib.small_trees(<=2 scenarios, <=2 steps, outcomes pass/"
+             "fail/undefined/skip; variants as in quick) x {no option, --stop, --dry-run}; family B (exhaustive): "
+             "the 6 fixed rich trees x {no option, --stop} x every single hook invocation raising; family C "
+             "(sampled): 12000 seeded random runs drawn as in quick")
 
 
 def _sub(n_q, n_t):
@@ -662,9 +668,9 @@ CHECKS.append(BoundedCheck(
     run=_run, replay=_replay, contract=_TEXT_CONTRACT))
 
 for _fmt in FORMATS:
-    _run, _replay = _runner(verdict_reporter_text, fmt=_fmt, scale=0.25)
+    _run, _replay = _runner(verdict_reporter_text, fmt=_fmt, scale=0.2)
     CHECKS.append(BoundedCheck(
-        "reporter-text-%s" % _fmt, bound=_sub((5, 100), (5, 1200)),
+        "reporter-text-%s" % _fmt, bound=_sub((5, 200), (5, 2400)),
         run=_run, replay=_replay,
         contract="format %s selected by userdata %s: %s" % (_fmt, FORMAT_KEY, _TEXT_CONTRACT)))
 
